@@ -243,9 +243,19 @@ def mftRun {X M B R : Type} (K : MftKern X M B R) (pre alloc : Bool) (script : L
 def mftFresh {X M B R : Type} (K : MftKern X M B R) (d : Dir) (p : CPrec) (x : X) : R :=
   (mftCall K false false {} d p x).1
 
-/-- the cache describes what it says: matrices recorded at `q` *are* the matrices for `q` -/
+/-- the cache describes what it says: matrices recorded at `q` *are* the matrices for `q` — as a check
+the driver runs after every call (`k1`/`k0`; the harness compares it with `M1.dtype == matrices_dtype` on
+the real object).  `Spec.Keyed` is its `Prop` form (`keyedB_iff`). -/
+def keyedB {X M B R : Type} [BEq M] (K : MftKern X M B R) (c : MftCache M B) : Bool :=
+  match c.mats with
+  | some (q, m) => m == K.mats q
+  | none => true
+
+namespace Spec
+/-- specification form of `keyedB` (not run by the driver; used as the invariant of the proofs) -/
 def Keyed {X M B R : Type} (K : MftKern X M B R) (c : MftCache M B) : Prop :=
   ∀ q m, c.mats = some (q, m) → m = K.mats q
+end Spec
 
 /-! ### provenance kernels (what the driver runs) -/
 
@@ -307,7 +317,10 @@ def nftRunFrom {X A R : Type} (K : NftKern X A R) (pre : Bool) : NftCache A → 
     let (rs, cf) := nftRunFrom K pre c' rest
     (r :: rs, cf)
 
+namespace Spec
+/-- specification-level invariant of the proofs (not run by the driver) -/
 def NftKeyed {X A R : Type} (K : NftKern X A R) (c : NftCache A) : Prop :=
   ∀ d a, c.get d = some a → a = K.matrix d
+end Spec
 
 end HcipyVerif.FourierSwitch
